@@ -275,9 +275,20 @@ def check_semseg(spec):
     m0 = m.clone()
     rng = rng_of(spec)
     labels = [spec.get("mask", "index")]
+    # the same pipeline over the same geometry with the image member as a PIL image (a second generator with the same seed makes the
+    # same draws): the geometry of a step does not depend on the form the image comes in, so the sizes must agree step by step
+    xp = Image.fromarray(np.random.default_rng(5).integers(0, 255, size=(h, w, 3), dtype=np.uint8))
+    mp, rngp = m.clone(), rng_of(spec)
     for s in spec["ts"]:
         t = _semseg_t(s)
         t.set_rng(rng)
+        if xp is not None:
+            tp = _semseg_t(s)
+            tp.set_rng(rngp)
+            try:
+                xp, mp = tp((xp, mp), {})
+            except Exception:
+                xp = None  # this member does not take PIL images (or refused): the comparison ends here
         before = size_hw(x)
         try:
             x, m = t((x, m), {})
@@ -307,6 +318,11 @@ def check_semseg(spec):
         ok, bad, tot = _in_register(x, m, m0)
         if not ok:
             raise Violation(f"semseg:image-and-mask-geometry-differ:{s['k']}", f"{bad} of {tot} valid pixels disagree after {s}")
+        if xp is not None:
+            if size_hw(xp) != size_hw(x) or tuple(mp.shape[-2:]) != size_hw(x):
+                raise Violation(f"semseg:pil-image-gets-other-geometry-than-tensor-image:{s['k']}",
+                                f"after {s}: PIL image {size_hw(xp)} / its mask {tuple(mp.shape[-2:])}, tensor image {size_hw(x)} (input {before})")
+            labels.append("pil")
         labels.append(s["k"])
     return Case(len(spec["ts"]) >= 2 or min(h, w) <= 2, labels)
 
